@@ -7,6 +7,14 @@ import Exetera.Lemmas.TransformsTime4
 /-!
 # C06 — schema-typed conversion on import stores the value the text denotes, or flags it
 
+**Reading note on "fix NC06d".** NC06d (a strict categorical column stores code 0 for a cell that equals no category key) is an OPEN
+finding: the repair exists only as a proposal (`fixes/proposed/NC06d_strict_categorical_rejects_unknown_text.patch`) and is NOT
+applied to /repo. Wherever a statement below says "fix NC06d" / "checked" it describes the PROPOSED importer (the model variant
+`catColumn` / `categoricalChecked`): for strict categorical columns it is a statement about that proposal, not about the code as
+found. What holds of the code as found is `categorical_property_partial` (every cell that IS a key is stored as its code) and the
+witness `Witness.C06.nc06d_unmatched_text_stored_as_zero`; the checks report the difference as KNOWN-FINDING NC06d. For every other
+column kind (and for strict categorical cells that are keys) the two coincide.
+
 All theorems are about the definitions of `Exetera/Model/Transforms.lean` that the driver runs, against
 `Exetera/Spec/Transforms.lean`. `Encodes c cells` is the reader's guarantee (C05) that chunk `c` holds the cells `cells`;
 a result `= .ok …` says in addition that no subscript of the kernel left its array and that every loop ended.
